@@ -847,7 +847,12 @@ class TreeTransform(Generic[TreeFnT]):
 
   @property
   def is_noop(self):
-    return not self.agg_fns and not self.fns and self.data_source_ is None
+    return (
+        not self.agg_fns
+        and not self.fns
+        and not self.slicers
+        and self.data_source_ is None
+    )
 
   def __hash__(self):
     return hash(self._id)
@@ -896,6 +901,11 @@ class TreeTransform(Generic[TreeFnT]):
       raise ValueError(
           'Cannot chain a transform with conflicting agg_output_keys'
           f' got {self.agg_output_keys=} and {child.agg_output_keys=}.'
+      )
+    slice_names = set(slicer.slice_name for slicer in self.slicers)
+    if dups := slice_names.intersection(s.slice_name for s in child.slicers):
+      raise ValueError(
+          f'Cannot chain a transform with duplicate slice names: {dups}.'
       )
     return self.maybe_replace(
         fns=self.fns + child.fns,
